@@ -59,6 +59,8 @@ impl Semphore {
 
     #[inline]
     fn wakeup_one(&self) {
+        #[cfg(may_verif)]
+        crate::verif::pt("sem.pop", crate::verif::addr(self), 0, 0);
         self.to_wake
             .pop()
             .map(|w| {
@@ -79,8 +81,12 @@ impl Semphore {
 
         let cur = SyncBlocker::current();
         // register blocker first
+        #[cfg(may_verif)]
+        crate::verif::pt("sem.wait.push", crate::verif::addr(self), crate::verif::addr(&*cur), 0);
         self.to_wake.push(cur.clone());
         // dec the cnt, if it's positive, unpark one waiter
+        #[cfg(may_verif)]
+        crate::verif::pt("sem.wait.dec", crate::verif::addr(self), 0, 0);
         if self.cnt.fetch_sub(1, Ordering::SeqCst) > 0 {
             self.wakeup_one();
         }
@@ -127,8 +133,12 @@ impl Semphore {
     pub fn try_wait(&self) -> bool {
         // we not register ourself at all
         // just manipulate the cnt is enough
+        #[cfg(may_verif)]
+        crate::verif::pt("sem.try.load", crate::verif::addr(self), 0, 0);
         let mut cnt = self.cnt.load(Ordering::SeqCst);
         while cnt > 0 {
+            #[cfg(may_verif)]
+            crate::verif::pt("sem.try.cas", crate::verif::addr(self), 0, 0);
             match self
                 .cnt
                 .compare_exchange(cnt, cnt - 1, Ordering::SeqCst, Ordering::SeqCst)
@@ -143,6 +153,8 @@ impl Semphore {
     /// increment the semphore value
     /// and would wakeup a thread/coroutine that is calling `wait`
     pub fn post(&self) {
+        #[cfg(may_verif)]
+        crate::verif::pt("sem.post.inc", crate::verif::addr(self), 0, 0);
         let cnt = self.cnt.fetch_add(1, Ordering::SeqCst);
         assert!(cnt < isize::MAX);
 
